@@ -10,6 +10,9 @@
 (*          before the next one started; `same`: the directory's           *)
 (*          fingerprint (names, sizes, hashes, lock file excluded) was     *)
 (*          unchanged by a rejected Open                                   *)
+(*          openbegin / openend: an Open parked right after taking the     *)
+(*          lock, and its end                                              *)
+(*   died   {p}                the process p was killed (no Close)         *)
 (*   race   {os, res, winner}  attempts released together from a barrier   *)
 (*   setdir {corrupt}          the directory was damaged / repaired        *)
 (* The expected result of every attempt is computed by DirLock's rules.    *)
@@ -29,7 +32,12 @@ TReset == Is("reset") /\ l' = l + 1 /\ holder' = 0 /\ corrupt' = E.corrupt
 TSet   == Is("setdir") /\ l' = l + 1 /\ corrupt' = E.corrupt /\ UNCHANGED holder
 IsErr(r) == r \notin {"ok", "inuse", "panic", "stuck"}
 TLk == /\ Is("lk") /\ l' = l + 1 /\ UNCHANGED corrupt
-       /\ IF E.act \in {"closebegin", "work"}   \* the holder's Close is under way (parked) / the holder wrote and merged:
+       /\ IF E.act = "openbegin"        \* an Open has taken the lock and is parked there: the directory is in use from now on
+          THEN /\ Must("lock", holder = 0) /\ holder' = E.o
+          ELSE IF E.act = "openend"     \* ... and now ran to its end
+          THEN /\ Must("lock", holder = E.o /\ (IF corrupt THEN IsErr(E.res) ELSE E.res = "ok"))
+               /\ holder' = (IF E.res = "ok" THEN E.o ELSE 0)
+          ELSE IF E.act \in {"closebegin", "work"}   \* the holder's Close is under way (parked) / the holder wrote and merged:
           THEN /\ Must("lock", E.o = holder /\ (E.act = "work" => E.res = "ok")) /\ UNCHANGED holder   \* the database is still open
           ELSE IF E.act = "close"
           THEN /\ Must("lock", E.o = holder /\ E.res = "ok") /\ holder' = 0
@@ -46,7 +54,10 @@ TRace == /\ Is("race") /\ l' = l + 1 /\ UNCHANGED corrupt
                ELSE IF corrupt THEN Must("lock", \A i \in 1..n : IsErr(E.res[i]) \/ E.res[i] = "inuse") /\ UNCHANGED holder
                ELSE /\ Must("lock", Cardinality(oks) = 1 /\ \A i \in 1..n : E.res[i] \in {"ok", "inuse"})
                     /\ holder' = (IF oks = {} THEN 0 ELSE E.os[CHOOSE i \in oks : TRUE])
-Next == TReset \/ TSet \/ TLk \/ TRace
+\* a process died without Close: the operating system released whatever lock it held (openers are 10 * process + slot)
+TDied == /\ Is("died") /\ l' = l + 1 /\ UNCHANGED corrupt
+         /\ holder' = IF holder \div 10 = E.p THEN 0 ELSE holder
+Next == TReset \/ TSet \/ TLk \/ TRace \/ TDied
 Spec == Init /\ [][Next]_vars
 ASSUME TLCSet(1, 0)
 HW == IF l > TLCGet(1) THEN TLCSet(1, l) ELSE TRUE
